@@ -81,7 +81,10 @@ class LRUCacheStore(Store):
         _logger.debug(f"Fetching key {key}")
         res = self._store.fetch_blob(key)
         _logger.debug(f"Fetching key {key} completed: {type(res)}")
-        self._cache.put(key, res)
+        # Stores answer None for a key they do not hold: do not cache a miss,
+        # otherwise has_blob() would report the key as present from then on.
+        if res is not None or self._store.has_blob(key):
+            self._cache.put(key, res)
         return res
 
     def store_blob(self, key: PyHash, blob: Any, codec: Optional[ProtocolRef]) -> None:
